@@ -450,6 +450,8 @@ class Captured:
         self.exc = None        # exception raised by the real code (refusal)
         self.exc_where = None  # 'find_structure' | 'do_shape' | 'other'
         self.wasm = None
+        self.cfg = None        # CFG of the function when find_structure was called
+        self.blocks = None
 
 
 def compile_capture(ir_module, function, cfg, blocks):
@@ -457,6 +459,7 @@ def compile_capture(ir_module, function, cfg, blocks):
     from ppci.wasm import ppci2wasm
     from ppci.graph import relooper
     cap = Captured()
+    cap.cfg, cap.blocks = cfg, blocks
     idx = {b: k for k, b in enumerate(blocks)}
     comp = ppci2wasm.IrToWasmCompiler()
     comp.prepare_compilation()
@@ -468,10 +471,24 @@ def compile_capture(ir_module, function, cfg, blocks):
 
     def find_structure(f):
         state["stage"] = "find_structure"
+        if f is function:
+            # the CFG that is structured is the one the function has NOW: the code generator has already split
+            # critical edges (blocks `<f>_edge_N`) when the function has phis
+            try:
+                r = ir_cfg(f)
+                if r is not None:
+                    cap.cfg, cap.blocks = r
+                    idx.clear()
+                    idx.update({b: k for k, b in enumerate(cap.blocks)})
+            except Exception as e:  # noqa
+                state["harness_error"] = e
         shape, rmap = orig_fs(f)
         state["stage"] = "do_shape"
         if f is function:
-            cap.shape = shape_tokens(shape, rmap, idx)
+            try:
+                cap.shape = shape_tokens(shape, rmap, idx)
+            except Exception as e:  # noqa
+                state["harness_error"] = e
         return shape, rmap
 
     def do_block(b):
@@ -500,10 +517,12 @@ def compile_capture(ir_module, function, cfg, blocks):
         cap.exc, cap.exc_where = e, state["stage"]
     finally:
         relooper.find_structure = orig_fs
+    if state.get("harness_error") is not None:
+        raise common.BrokenCheck(f"harness could not read the shape/CFG: {state['harness_error']!r}")
     if cap.exc is None:
         if state["instrs"] is None:
             raise common.BrokenCheck("function was not compiled")
-        cap.tokens, cap.problems = skeleton_tokens(state["instrs"], state["marks"], idx, cfg)
+        cap.tokens, cap.problems = skeleton_tokens(state["instrs"], state["marks"], idx, cap.cfg)
     cap.compiler = comp
     return cap
 
@@ -722,7 +741,7 @@ def pdriver(ctx, reqs, chunks=4):
 
 class Case:
     def __init__(self, origin, cfg, cap, module=None, extra=None):
-        self.origin, self.cfg, self.cap, self.module, self.extra = origin, cfg, cap, module, extra or {}
+        self.origin, self.cfg, self.cap, self.module, self.extra = origin, (cap.cfg if cap.cfg is not None else cfg), cap, module, extra or {}
         self.cls = failure_class(cfg, origin)
 
 
@@ -1233,14 +1252,14 @@ def check(ctx):
     # 3a. small structured programs: the fragment the relooper handles (class S, <= SMALL blocks) is where a
     #     regression shows up under a signature that is not a known finding
     seen = set()
-    for _ in range(3000 if ctx.thorough else 300):
+    for _ in range(2000 if ctx.thorough else 300):
         cfg = gen_structured(ctx.rng, budget=ctx.rng.randint(1, 3))
         for c in (cfg, thread_jumps(cfg)):
             if len(c) <= SMALL and tuple(c) not in seen and classify(c) == "S":
                 seen.add(tuple(c))
                 cases.append(capture_cfg("small-structured", c))
     # 3b. structured programs (as laid out by a C compiler, and after jump threading)
-    for _ in range(400 if ctx.thorough else 40):
+    for _ in range(300 if ctx.thorough else 40):
         cfg = gen_structured(ctx.rng)
         cases.append(capture_cfg("structured", cfg))
         t = thread_jumps(cfg)
